@@ -35,11 +35,13 @@ Definition espec_step (c : ecfg) (m : amap) (o : eop) : amap * option (result (l
            end
   | ERemove a =>
       if negb (mem a (akeys m)) then (m, None) else (adel a m, Some (Ok []))
+  | EClear => ([], Some (Ok []))
   | _ => (m, equery c m (fun a => aget a m) (fun a => aget a m) (length m) o)
   end.
 
 Definition spec_view (m : amap) : list Z :=
-  Z.of_nat (length m) :: Z.of_nat (length m) :: obs_rows (map (fun ap : Z * point => fst ap :: snd ap) m).
+  Z.of_nat (length m) :: Z.of_nat (length m)
+  :: obs_rows_in_order (map (fun ap : Z * point => fst ap :: snd ap) m) ++ SEP :: akeys m.
 
 Definition spec_obs (m : amap) (r : option (result (list Z))) : list Z :=
   match r with
@@ -64,6 +66,10 @@ Fixpoint espec_final (c : ecfg) (m : amap) (ops : list eop) : amap :=
 Definition EInv (s : estate) : Prop :=
   e_n s = length (e_active s) /\ (e_n s <= length (e_store s))%nat /\ NoDup (e_active s) /\
   (forall a, aget a (e_a2i s) = index_of a (e_active s)).
+
+(* ... and the model's registry lists exactly the agents of the space, in the same order (every agent of these
+   histories is a ContinuousSpaceAgent of the one space: created = registered + added, removed = deregistered + removed) *)
+Definition EInvM (s : estate) : Prop := EInv s /\ e_model s = e_active s.
 
 Definition e_abs (s : estate) : amap := combine (e_active s) (e_rows s).
 
@@ -93,6 +99,9 @@ Proof.
   unfold EInv, e_init. cbn [e_n e_active e_store e_a2i length].
   split; [reflexivity|]. split; [lia|]. split; [constructor|]. intros a. reflexivity.
 Qed.
+
+Lemma init_invM c : EInvM (e_init c).
+Proof. split; [apply init_inv|reflexivity]. Qed.
 
 (* ---------------------------------------------------------------- list facts used below *)
 Lemma firstn_exact {A : Type} (r1 r2 : list A) : firstn (length r1) (r1 ++ r2) = r1.
@@ -222,14 +231,14 @@ Qed.
 
 (* writing the row of an agent: only that agent's entry of the abstract map changes *)
 Lemma set_row_inv s idx p : EInv s ->
-  EInv {| e_store := list_set idx p (e_store s); e_n := e_n s; e_active := e_active s; e_a2i := e_a2i s |}.
+  EInv {| e_store := list_set idx p (e_store s); e_n := e_n s; e_active := e_active s; e_a2i := e_a2i s; e_model := e_model s |}.
 Proof.
   intros [H1 [H2 [H3 H4]]]. unfold EInv. cbn [e_n e_active e_store e_a2i].
   rewrite list_set_length. auto.
 Qed.
 
 Lemma set_row_abs s a idx p : EInv s -> index_of a (e_active s) = Some idx ->
-  e_abs {| e_store := list_set idx p (e_store s); e_n := e_n s; e_active := e_active s; e_a2i := e_a2i s |}
+  e_abs {| e_store := list_set idx p (e_store s); e_n := e_n s; e_active := e_active s; e_a2i := e_a2i s; e_model := e_model s |}
   = aset a p (e_abs s).
 Proof.
   intros [H1 [H2 [H3 H4]]] Hi. unfold e_abs, e_rows. cbn [e_n e_active e_store].
@@ -350,69 +359,171 @@ Proof.
     eexists; (split; [reflexivity|]); (split; [apply set_row_inv; exact Hinv|apply set_row_abs; assumption]).
 Qed.
 
-Lemma estep_sim c s o : EInv s ->
-  EInv (fst (estep c s o)) /\
+Lemma akeys_nil_amap (m : amap) : akeys m = [] -> m = [].
+Proof. destruct m; [reflexivity|discriminate]. Qed.
+
+Lemma filter_filter_Z (f g : Z -> bool) (l : list Z) :
+  filter f (filter g l) = filter (fun x => g x && f x) l.
+Proof.
+  induction l as [|x t IH]; [reflexivity|]. cbn [filter].
+  destruct (g x); cbn [filter andb]; [destruct (f x); rewrite IH; reflexivity|exact IH].
+Qed.
+
+Lemma filter_not_mem (l l' : list Z) :
+  (forall k, In k l' -> In k l) -> filter (fun k => negb (mem k l)) l' = [].
+Proof.
+  induction l' as [|x t IH]; intros H; [reflexivity|]. cbn [filter].
+  assert (mem x l = true) as -> by (apply mem_In; apply H; left; reflexivity).
+  cbn [negb]. apply IH. intros k Hk. apply H. right. exact Hk.
+Qed.
+
+Lemma set_position_frame c s a p s' r :
+  set_position c s a p = (s', r) -> e_model s' = e_model s /\ e_active s' = e_active s.
+Proof.
+  unfold set_position.
+  destruct (if in_closed (ec_bounds c) p then Ok p else if ec_torus c then Ok (wrap (ec_bounds c) p) else Err E_OOB);
+    [|intros H; inversion H; auto].
+  destruct (aget a (e_a2i s)); [|intros H; inversion H; auto].
+  destruct (Nat.ltb _ _); intros H; inversion H; auto.
+Qed.
+
+Lemma register_inv s a : EInv s -> EInv (register s a).
+Proof. intros H. exact H. Qed.
+
+Lemma deregister_inv s a : EInv s -> EInv (deregister s a).
+Proof. intros H. exact H. Qed.
+
+Lemma remove_agent_model s a s' : remove_agent s a = Ok s' -> e_model s' = e_model s.
+Proof. unfold remove_agent. destruct (aget a (e_a2i s)); intros H; inversion H. reflexivity. Qed.
+
+Lemma filter_eqb_sym a (l : list Z) :
+  filter (fun b => negb (b =? a)) l = filter (fun x => negb (a =? x)) l.
+Proof. apply filter_ext. intros x. rewrite Z.eqb_sym. reflexivity. Qed.
+
+(* ContinuousSpaceAgent.remove(): the agent leaves the model AND the space; nobody else is touched *)
+Lemma agent_remove_ok s a : EInvM s -> In a (e_active s) ->
+  exists s', agent_remove s a = (s', Ok tt) /\ EInvM s' /\ e_abs s' = adel a (e_abs s) /\
+             e_active s' = filter (fun b => negb (b =? a)) (e_active s).
+Proof.
+  intros [Hinv Hmod] Hin.
+  destruct (index_of a (e_active s)) as [idx|] eqn:Hi; [|apply index_of_None in Hi; contradiction].
+  destruct (remove_agent_ok (deregister s a) a idx (deregister_inv s a Hinv) Hi) as [s' [Hr [Hinv' Habs']]].
+  exists s'. unfold agent_remove. rewrite Hr.
+  assert (Hact : e_active s' = filter (fun b => negb (b =? a)) (e_active s)).
+  { rewrite <- (e_abs_keys s' Hinv'), Habs', akeys_adel.
+    change (e_abs (deregister s a)) with (e_abs s). rewrite (e_abs_keys s Hinv). symmetry. apply filter_eqb_sym. }
+  split; [reflexivity|]. split; [split; [exact Hinv'|]|split; [exact Habs'|exact Hact]].
+  rewrite (remove_agent_model _ _ _ Hr), Hact. cbn [deregister e_model]. rewrite Hmod. reflexivity.
+Qed.
+
+Lemma fold_adel_keys (l : list Z) : forall (m : amap),
+  akeys (fold_left (fun m a => adel a m) l m) = filter (fun k => negb (mem k l)) (akeys m).
+Proof.
+  induction l as [|a t IH]; intros m; cbn [fold_left].
+  - cbn [mem existsb negb]. symmetry. clear. induction (akeys m) as [|x r IHr]; [reflexivity|].
+    cbn [filter]. unfold mem. cbn [existsb negb]. rewrite IHr at 1. reflexivity.
+  - rewrite IH, akeys_adel. rewrite filter_filter_Z. apply filter_ext. intros k.
+    unfold mem. cbn [existsb]. rewrite negb_orb, (Z.eqb_sym k a). reflexivity.
+Qed.
+
+(* Model.remove_all_agents(): every agent of the snapshot is removed in turn; none is left in the space *)
+Lemma remove_all_ok (l : list Z) : forall s, EInvM s -> NoDup l -> (forall a, In a l -> In a (e_active s)) ->
+  exists s', remove_all s l = (s', Ok tt) /\ EInvM s' /\
+             e_abs s' = fold_left (fun m a => adel a m) l (e_abs s).
+Proof.
+  induction l as [|a t IH]; intros s Hinv Hnd Hsub; cbn [remove_all fold_left].
+  - exists s. auto.
+  - inversion Hnd as [|? ? Ha Hnd']. subst.
+    destruct (agent_remove_ok s a Hinv (Hsub a (or_introl eq_refl))) as [s1 [Hr [Hinv1 [Habs1 Hact1]]]].
+    rewrite Hr.
+    destruct (IH s1 Hinv1 Hnd') as [s' [Hr' [Hinv' Habs']]].
+    { intros b Hb. rewrite Hact1. apply filter_In. split; [apply Hsub; right; exact Hb|].
+      destruct (b =? a) eqn:E; [|reflexivity]. apply Z.eqb_eq in E. subst. contradiction. }
+    exists s'. rewrite Hr', Habs', Habs1. auto.
+Qed.
+
+Lemma estep_sim c s o : EInvM s ->
+  EInvM (fst (estep c s o)) /\
   espec_step c (e_abs s) o = (e_abs (fst (estep c s o)), snd (estep c s o)).
 Proof.
-  intros Hinv.
+  intros HinvM. pose proof HinvM as [Hinv Hmod].
   assert (Hq : forall o', equery c (combine (e_active s) (e_rows s)) (e_getpos s) (e_getrow s) (e_n s) o'
                           = equery c (e_abs s) (fun a => aget a (e_abs s)) (fun a => aget a (e_abs s))
                                    (length (e_abs s)) o').
   { intros o'. rewrite (e_abs_length s Hinv).
     apply equery_ext; intros a; [apply getpos_abs|apply getrow_abs]; exact Hinv. }
-  destruct o as [a p|a p|a|q|q r|q k out|q|a r|a k out|a b|q l|q l];
-    try (cbn [estep espec_step fst snd]; rewrite Hq; split; [exact Hinv|reflexivity]).
+  destruct o as [a p|a p|a|q|q r|q k out|q|a r|a k out|a b|q l|q l|];
+    try (cbn [estep espec_step fst snd]; rewrite Hq; split; [exact HinvM|reflexivity]).
   - (* EAdd *)
     cbn [estep espec_step]. rewrite (mem_active_abs s a Hinv).
     destruct (negb (dim_ok (ec_bounds c) p) || mem a (e_active s)
               || negb (ec_torus c) && negb (in_closed (ec_bounds c) p)) eqn:Eg;
-      [split; [exact Hinv|reflexivity]|].
+      [split; [exact HinvM|reflexivity]|].
     apply orb_false_iff in Eg. destruct Eg as [Eg Eoob]. apply orb_false_iff in Eg. destruct Eg as [_ Em].
     assert (~ In a (e_active s)) as Hnin by (rewrite <- mem_In; congruence).
-    pose proof (add_agent_inv s a Hinv Hnin) as Hinv1.
-    assert (Hi : index_of a (e_active (add_agent s a)) = Some (e_n s)).
+    (* Agent.__init__ registers with the model first; the space fields are untouched by that *)
+    set (s0 := register s a).
+    assert (Hinv0 : EInv s0) by exact (register_inv s a Hinv).
+    assert (Hnin0 : ~ In a (e_active s0)) by exact Hnin.
+    assert (Habs0 : e_abs s0 = e_abs s) by reflexivity.
+    pose proof (add_agent_inv s0 a Hinv0 Hnin0) as Hinv1.
+    assert (Hi : index_of a (e_active (add_agent s0 a)) = Some (e_n s0)).
     { destruct Hinv1 as [_ [_ [_ H4']]]. rewrite <- H4'. unfold add_agent. cbn [e_a2i]. apply aget_aset_same. }
-    pose proof (set_position_sim c (add_agent s a) a p (e_n s) Hinv1 Hi) as Hs.
+    pose proof (set_position_sim c (add_agent s0 a) a p (e_n s0) Hinv1 Hi) as Hs.
     assert (Hn : exists p', norm_pos c p = Ok p').
     { unfold norm_pos. destruct (in_closed (ec_bounds c) p); [eauto|].
       destruct (ec_torus c); [eauto|]. simpl in Eoob. discriminate. }
     destruct Hn as [p' Hn]. rewrite Hn in *. destruct Hs as [s2 [Hs2 [Hinv2 Habs2]]].
-    rewrite Hs2. cbn [fst snd]. split; [exact Hinv2|].
-    rewrite Habs2.
-    assert (e_abs (add_agent s a) = e_abs s ++ combine [a] (firstn 1 (skipn (e_n s) (e_store (add_agent s a))))) as Hab.
+    rewrite Hs2. cbn [fst snd].
+    destruct (set_position_frame _ _ _ _ _ _ Hs2) as [Hm2 Ha2].
+    split; [split; [exact Hinv2|]|].
+    { rewrite Hm2, Ha2. unfold add_agent. cbn [e_model e_active]. unfold s0. cbn [register e_model e_active].
+      rewrite Hmod. reflexivity. }
+    rewrite Habs2, <- Habs0.
+    assert (e_abs (add_agent s0 a) = e_abs s0 ++ combine [a] (firstn 1 (skipn (e_n s0) (e_store (add_agent s0 a))))) as Hab.
     { unfold e_abs at 1. unfold e_rows at 1.
-      pose proof Hinv as [H1 [H2 _]]. pose proof Hinv1 as [H1' [H2' _]].
-      change (e_n (add_agent s a)) with (S (e_n s)) in *.
-      change (e_active (add_agent s a)) with (e_active s ++ [a]).
-      rewrite <- (firstn_skipn (e_n s) (e_store (add_agent s a))) at 1.
-      replace (S (e_n s)) with (length (firstn (e_n s) (e_store (add_agent s a))) + 1)%nat
+      pose proof Hinv0 as [H1 [H2 _]]. pose proof Hinv1 as [H1' [H2' _]].
+      change (e_n (add_agent s0 a)) with (S (e_n s0)) in *.
+      change (e_active (add_agent s0 a)) with (e_active s0 ++ [a]).
+      rewrite <- (firstn_skipn (e_n s0) (e_store (add_agent s0 a))) at 1.
+      replace (S (e_n s0)) with (length (firstn (e_n s0) (e_store (add_agent s0 a))) + 1)%nat
         by (rewrite firstn_length; lia).
       rewrite firstn_past. rewrite combine_app by (rewrite firstn_length; lia).
-      rewrite add_agent_rows by exact Hinv. reflexivity. }
+      rewrite add_agent_rows by exact Hinv0. reflexivity. }
     rewrite Hab.
-    pose proof Hinv1 as [H1' [H2' _]]. change (e_n (add_agent s a)) with (S (e_n s)) in *.
-    destruct (skipn (e_n s) (e_store (add_agent s a))) as [|x rest] eqn:Esk.
-    { exfalso. assert (length (skipn (e_n s) (e_store (add_agent s a))) = 0%nat) as Hz by (rewrite Esk; reflexivity).
+    pose proof Hinv1 as [H1' [H2' _]]. change (e_n (add_agent s0 a)) with (S (e_n s0)) in *.
+    destruct (skipn (e_n s0) (e_store (add_agent s0 a))) as [|x rest] eqn:Esk.
+    { exfalso. assert (length (skipn (e_n s0) (e_store (add_agent s0 a))) = 0%nat) as Hz by (rewrite Esk; reflexivity).
       rewrite skipn_length in Hz. lia. }
     cbn [firstn combine]. rewrite aset_app_here; [reflexivity|].
-    rewrite (e_abs_keys s Hinv). exact Hnin.
+    rewrite (e_abs_keys s0 Hinv0). exact Hnin0.
   - (* ESet *)
     cbn [estep espec_step]. rewrite (mem_active_abs s a Hinv).
     destruct (negb (dim_ok (ec_bounds c) p) || negb (mem a (e_active s))) eqn:Eg;
-      [split; [exact Hinv|reflexivity]|].
+      [split; [exact HinvM|reflexivity]|].
     apply orb_false_iff in Eg. destruct Eg as [_ Em]. apply negb_false_iff in Em. apply mem_In in Em.
     destruct (index_of a (e_active s)) as [idx|] eqn:Hi; [|apply index_of_None in Hi; contradiction].
     pose proof (set_position_sim c s a p idx Hinv Hi) as Hs.
     destruct (norm_pos c p) as [p'|k].
-    + destruct Hs as [s2 [Hs2 [Hinv2 Habs2]]]. rewrite Hs2. cbn [fst snd]. rewrite Habs2. auto.
+    + destruct Hs as [s2 [Hs2 [Hinv2 Habs2]]]. rewrite Hs2. cbn [fst snd]. rewrite Habs2.
+      destruct (set_position_frame _ _ _ _ _ _ Hs2) as [Hm2 Ha2].
+      split; [split; [exact Hinv2|rewrite Hm2, Ha2; exact Hmod]|reflexivity].
     + rewrite Hs. cbn [fst snd]. auto.
   - (* ERemove *)
     cbn [estep espec_step]. rewrite (mem_active_abs s a Hinv).
-    destruct (mem a (e_active s)) eqn:Em; cbn [negb]; [|split; [exact Hinv|reflexivity]].
+    destruct (mem a (e_active s)) eqn:Em; cbn [negb]; [|split; [exact HinvM|reflexivity]].
     apply mem_In in Em.
-    destruct (index_of a (e_active s)) as [idx|] eqn:Hi; [|apply index_of_None in Hi; contradiction].
-    destruct (remove_agent_ok s a idx Hinv Hi) as [s' [Hr [Hinv' Habs']]].
+    destruct (agent_remove_ok s a HinvM Em) as [s' [Hr [Hinv' [Habs' _]]]].
     rewrite Hr. cbn [fst snd]. rewrite Habs'. auto.
+  - (* EClear *)
+    cbn [estep espec_step].
+    destruct (remove_all_ok (e_model s) s HinvM) as [s' [Hr [Hinv' Habs']]].
+    { rewrite Hmod. apply Hinv. }
+    { intros b Hb. rewrite <- Hmod. exact Hb. }
+    rewrite Hr. cbn [fst snd]. split; [exact Hinv'|].
+    assert (e_abs s' = []) as ->; [|reflexivity].
+    apply akeys_nil_amap. rewrite Habs', fold_adel_keys, Hmod, (e_abs_keys s Hinv).
+    apply filter_not_mem. auto.
 Qed.
 
 (* the view of a state = the view of its abstract map *)
@@ -428,13 +539,13 @@ Proof.
   apply Z.eqb_eq in E. subst. contradiction.
 Qed.
 
-Lemma view_abs s : EInv s -> e_view s = spec_view (e_abs s).
+Lemma view_abs s : EInvM s -> e_view s = spec_view (e_abs s).
 Proof.
-  intros Hinv. unfold e_view, spec_view.
+  intros [Hinv Hmod]. unfold e_view, spec_view.
   rewrite (e_rows_length s Hinv).
   assert (length (e_abs s) = length (e_active s)) as ->
     by (rewrite (e_abs_length s Hinv); apply Hinv).
-  do 3 f_equal.
+  rewrite Hmod, (e_abs_keys s Hinv). do 2 f_equal. f_equal. unfold obs_rows_in_order. f_equal.
   rewrite <- rows_of_map by (rewrite (e_abs_keys s Hinv); apply Hinv).
   rewrite (e_abs_keys s Hinv). apply map_ext_in. intros a Ha.
   rewrite <- getpos_abs by exact Hinv. unfold e_getpos.
@@ -442,7 +553,7 @@ Proof.
 Qed.
 
 (* ---------------------------------------------------------------- refinement over whole histories *)
-Lemma e_run_refines c ops : forall s, EInv s -> e_run c s ops = espec_run c (e_abs s) ops.
+Lemma e_run_refines c ops : forall s, EInvM s -> e_run c s ops = espec_run c (e_abs s) ops.
 Proof.
   induction ops as [|o t IH]; intros s Hinv; [reflexivity|].
   cbn [e_run espec_run]. destruct (estep_sim c s o Hinv) as [Hinv' Hsim].
@@ -451,8 +562,8 @@ Proof.
   unfold e_obs, spec_obs. rewrite (view_abs s' Hinv'). reflexivity.
 Qed.
 
-Lemma e_final_refines c ops : forall s, EInv s ->
-  EInv (e_final c s ops) /\ e_abs (e_final c s ops) = espec_final c (e_abs s) ops.
+Lemma e_final_refines c ops : forall s, EInvM s ->
+  EInvM (e_final c s ops) /\ e_abs (e_final c s ops) = espec_final c (e_abs s) ops.
 Proof.
   induction ops as [|o t IH]; intros s Hinv; [split; [exact Hinv|reflexivity]|].
   cbn [e_final espec_final]. destruct (estep_sim c s o Hinv) as [Hinv' Hsim].
@@ -464,11 +575,14 @@ Proof. reflexivity. Qed.
 
 (* C10_exp_refines *)
 Theorem exp_refines c ops : e_run c (e_init c) ops = espec_run c [] ops.
-Proof. rewrite (e_run_refines c ops (e_init c) (init_inv c)). reflexivity. Qed.
+Proof. rewrite (e_run_refines c ops (e_init c) (init_invM c)). reflexivity. Qed.
 
 (* the invariant in every reachable state, for every initial capacity *)
+Theorem exp_reachable_invM c ops : EInvM (e_final c (e_init c) ops).
+Proof. apply e_final_refines. apply init_invM. Qed.
+
 Theorem exp_reachable_inv c ops : EInv (e_final c (e_init c) ops).
-Proof. apply e_final_refines. apply init_inv. Qed.
+Proof. apply exp_reachable_invM. Qed.
 
 (* ---------------------------------------------------------------- what the specification says *)
 (* the position of agent a after a history depends only on the operations that name a *)
@@ -484,6 +598,7 @@ Definition e_track (c : ecfg) (a : Z) (cur : option point) (o : eop) : option po
       then match norm_pos c p with Ok p' => Some p' | Err _ => cur end
       else cur
   | ERemove b => if b =? a then None else cur
+  | EClear => None
   | _ => cur
   end.
 
@@ -505,7 +620,7 @@ Qed.
 Lemma espec_step_track c m o a :
   aget a (fst (espec_step c m o)) = e_track c a (aget a m) o.
 Proof.
-  destruct o as [b p|b p|b|q|q r|q k out|q|b r|b k out|b b'|q l|q l]; cbn [espec_step e_track fst]; try reflexivity.
+  destruct o as [b p|b p|b|q|q r|q k out|q|b r|b k out|b b'|q l|q l|]; cbn [espec_step e_track fst]; try reflexivity.
   - (* EAdd *)
     rewrite (mem_keys_aget m b).
     destruct (Z.eq_dec b a) as [->|Hne].
@@ -551,7 +666,7 @@ Qed.
 Theorem exp_position_last_assigned c ops a :
   e_getpos (e_final c (e_init c) ops) a = fold_left (e_track c a) ops None.
 Proof.
-  destruct (e_final_refines c ops (e_init c) (init_inv c)) as [Hinv Habs].
+  destruct (e_final_refines c ops (e_init c) (init_invM c)) as [[Hinv Hmod] Habs].
   rewrite (getpos_abs _ a Hinv), Habs. apply espec_final_track.
 Qed.
 
@@ -560,7 +675,7 @@ Theorem exp_agents_exact c ops a :
   NoDup (e_active (e_final c (e_init c) ops)) /\
   (In a (e_active (e_final c (e_init c) ops)) <-> fold_left (e_track c a) ops None <> None).
 Proof.
-  destruct (e_final_refines c ops (e_init c) (init_inv c)) as [Hinv Habs].
+  destruct (e_final_refines c ops (e_init c) (init_invM c)) as [[Hinv Hmod] Habs].
   split; [apply Hinv|].
   rewrite <- (exp_position_last_assigned c ops a), (getpos_abs _ a Hinv).
   rewrite <- (e_abs_keys _ Hinv). split.
@@ -573,10 +688,10 @@ Qed.
 Theorem exp_no_internal_error c ops o s' e :
   estep c (e_final c (e_init c) ops) o = (s', Some (Err e)) -> e = E_OOB.
 Proof.
-  intros H. pose proof (exp_reachable_inv c ops) as Hinv.
+  intros H. pose proof (exp_reachable_invM c ops) as Hinv.
   destruct (estep_sim c _ o Hinv) as [_ Hsim]. rewrite H in Hsim. cbn [fst snd] in Hsim.
   revert Hsim. generalize (e_abs (e_final c (e_init c) ops)) as m. intros m.
-  destruct o as [b p|b p|b|q|q r|q k out|q|b r|b k out|b b'|q l|q l]; cbn [espec_step].
+  destruct o as [b p|b p|b|q|q r|q k out|q|b r|b k out|b b'|q l|q l|]; cbn [espec_step].
   - destruct (_ || _ || _) eqn:Eg; [intros Hs; inversion Hs|].
     unfold norm_pos. destruct (in_closed (ec_bounds c) p); [intros Hs; inversion Hs|].
     destruct (ec_torus c); intros Hs; inversion Hs. reflexivity.
@@ -589,9 +704,9 @@ Proof.
   - cbn [equery]. destruct (_ || _ || _); [intros Hs; inversion Hs|].
     destruct (knn_legal _ _ _); intros Hs; inversion Hs.
   - cbn [equery]. destruct (negb _); intros Hs; inversion Hs.
-  - cbn [equery]. destruct (aget b m); intros Hs; inversion Hs.
+  - cbn [equery]. destruct (if r <? 0 then None else aget b m); intros Hs; inversion Hs.
   - cbn [equery]. destruct (aget b m); [|intros Hs; inversion Hs].
-    destruct (_ || _ || _); [intros Hs; inversion Hs|].
+    destruct (_ || _); [intros Hs; inversion Hs|].
     destruct (knn_legal _ _ _); intros Hs; inversion Hs.
   - cbn [equery]. destruct (aget b m); [|intros Hs; inversion Hs].
     destruct (aget b' m); intros Hs; inversion Hs.
@@ -599,29 +714,26 @@ Proof.
     destruct (positions_of _ l); intros Hs; inversion Hs.
   - cbn [equery]. destruct (negb _); [intros Hs; inversion Hs|].
     destruct (positions_of _ l); intros Hs; inversion Hs.
+  - intros Hs; inversion Hs.
 Qed.
 
 (* C18_continuous_atomic_exp_position: a rejected call leaves the whole state unchanged *)
 Theorem exp_atomic c ops o s' e :
   estep c (e_final c (e_init c) ops) o = (s', Some (Err e)) -> s' = e_final c (e_init c) ops.
 Proof.
-  intros H. pose proof (exp_no_internal_error c ops o s' e H) as He. subst e.
-  pose proof (exp_reachable_inv c ops) as Hinv. revert H.
-  generalize dependent (e_final c (e_init c) ops). intros s Hinv.
-  destruct o as [b p|b p|b|q|q r|q k out|q|b r|b k out|b b'|q l|q l]; cbn [estep];
-    try (intros H; inversion H; reflexivity).
-  - destruct (_ || _ || _) eqn:Eg; [intros H; inversion H|].
-    apply orb_false_iff in Eg. destruct Eg as [Eg Eoob]. apply orb_false_iff in Eg. destruct Eg as [_ Em].
-    assert (~ In b (e_active s)) as Hnin by (rewrite <- mem_In; congruence).
-    pose proof (add_agent_inv s b Hinv Hnin) as Hinv1.
-    assert (Hi : index_of b (e_active (add_agent s b)) = Some (e_n s)).
-    { destruct Hinv1 as [_ [_ [_ H4']]]. rewrite <- H4'. unfold add_agent. cbn [e_a2i]. apply aget_aset_same. }
-    pose proof (set_position_sim c (add_agent s b) b p (e_n s) Hinv1 Hi) as Hs.
-    unfold norm_pos in Hs. destruct (in_closed (ec_bounds c) p).
-    + destruct Hs as [s2 [Hs2 _]]. rewrite Hs2. intros H; inversion H.
-    + destruct (ec_torus c); [|simpl in Eoob; discriminate].
-      destruct Hs as [s2 [Hs2 _]]. rewrite Hs2. intros H; inversion H.
-  - destruct (_ || _) eqn:Eg; [intros H; inversion H|].
+  intros H. pose proof (exp_reachable_invM c ops) as HinvM.
+  destruct (estep_sim c _ o HinvM) as [_ Hsim]. rewrite H in Hsim. cbn [fst snd] in Hsim.
+  revert H Hsim. generalize (e_abs (e_final c (e_init c) ops)) as m.
+  generalize dependent (e_final c (e_init c) ops). intros s HinvM m.
+  destruct o as [b p|b p|b|q|q r|q k out|q|b r|b k out|b b'|q l|q l|]; cbn [estep espec_step];
+    try (intros H _; inversion H; reflexivity).
+  - (* EAdd: never rejected *)
+    intros _. destruct (_ || _ || _) eqn:Eg; [intros Hs; inversion Hs|].
+    apply orb_false_iff in Eg. destruct Eg as [_ Eoob].
+    unfold norm_pos. destruct (in_closed (ec_bounds c) p); [intros Hs; inversion Hs|].
+    destruct (ec_torus c); [intros Hs; inversion Hs|]. simpl in Eoob. discriminate.
+  - (* ESet: rejected before anything is written *)
+    intros H _. revert H. destruct (_ || _) eqn:Eg; [intros H; inversion H|].
     unfold set_position.
     destruct (in_closed (ec_bounds c) p); [|destruct (ec_torus c)].
     + destruct (aget b (e_a2i s)); [|intros H; inversion H; reflexivity].
@@ -629,8 +741,10 @@ Proof.
     + destruct (aget b (e_a2i s)); [|intros H; inversion H; reflexivity].
       destruct (Nat.ltb _ _); intros H; inversion H; reflexivity.
     + intros H; inversion H; reflexivity.
-  - destruct (negb _); [intros H; inversion H|].
-    destruct (remove_agent s b); intros H; inversion H; reflexivity.
+  - (* ERemove: never fails *)
+    intros _. destruct (negb _); intros Hs; inversion Hs.
+  - (* EClear: never fails *)
+    intros _ Hs. inversion Hs.
 Qed.
 
 (* ---------------------------------------------------------------- query answers *)
@@ -705,6 +819,7 @@ Proof.
     destruct (norm_pos c p0) eqn:En; [|apply Hcur]. intros H. inversion H. subst.
     eapply norm_pos_in_bounds; eassumption.
   - destruct (_ =? _); [discriminate|apply Hcur].
+  - discriminate.
 Qed.
 
 (* C10_torus_in_bounds (experimental): every reported position lies inside the closed bounds *)
@@ -735,7 +850,7 @@ Theorem exp_torus_accepts c ops a p :
   snd (estep c (e_final c (e_init c) ops) (ESet a p)) = Some (Ok []).
 Proof.
   intros Ht Hd Hin. pose proof (exp_reachable_inv c ops) as Hinv.
-  destruct (estep_sim c _ (ESet a p) Hinv) as [_ Hsim].
+  destruct (estep_sim c _ (ESet a p) (exp_reachable_invM c ops)) as [_ Hsim].
   cbn [espec_step] in Hsim. rewrite (mem_active_abs _ a Hinv), Hd in Hsim.
   apply mem_In in Hin. rewrite Hin in Hsim. cbn [negb orb] in Hsim.
   unfold norm_pos in Hsim. rewrite Ht in Hsim.
@@ -778,7 +893,7 @@ Theorem exp_radius_end_to_end c ops q r a d :
              d = dist2 (ec_torus c) (ec_bounds c) p q /\ 0 <= r /\ d <= r * r).
 Proof.
   cbn zeta. split.
-  - destruct (estep_sim c _ (ERadius q r) (exp_reachable_inv c ops)) as [_ H]. rewrite H. reflexivity.
+  - destruct (estep_sim c _ (ERadius q r) (exp_reachable_invM c ops)) as [_ H]. rewrite H. reflexivity.
   - rewrite radius_exact. destruct (reachable_abs c ops) as [_ Hin]. split.
     + intros [p [H1 H2]]. exists p. split; [apply Hin; exact H1|exact H2].
     + intros [p [H1 H2]]. exists p. split; [apply Hin; exact H1|exact H2].
@@ -915,10 +1030,10 @@ Proof. intros H. rewrite (exp_atomic c ops o s' e H). reflexivity. Qed.
 
 (* ---------------------------------------------------------------- unaffected by other agents *)
 Definition e_names (a : Z) (o : eop) : bool :=
-  match o with EAdd b _ | ESet b _ | ERemove b => b =? a | _ => false end.
+  match o with EAdd b _ | ESet b _ | ERemove b => b =? a | EClear => true | _ => false end.
 
 Lemma e_track_other c a cur o : e_names a o = false -> e_track c a cur o = cur.
-Proof. destruct o; cbn [e_names e_track]; intros H; try rewrite H; reflexivity. Qed.
+Proof. destruct o; cbn [e_names e_track]; intros H; try discriminate H; try rewrite H; reflexivity. Qed.
 
 Lemma e_track_filter c a ops : forall cur,
   fold_left (e_track c a) ops cur = fold_left (e_track c a) (filter (e_names a) ops) cur.
@@ -1008,7 +1123,7 @@ Qed.
 (* a capacity growth step of ANY size (k fresh, uninitialised rows appended to _agent_positions; the view
    agent_positions = _agent_positions[0:n] re-taken), at ANY moment of a history *)
 Definition grow (s : estate) (k : nat) : estate :=
-  {| e_store := e_store s ++ repeat garbage k; e_n := e_n s; e_active := e_active s; e_a2i := e_a2i s |}.
+  {| e_store := e_store s ++ repeat garbage k; e_n := e_n s; e_active := e_active s; e_a2i := e_a2i s; e_model := e_model s |}.
 
 Inductive gop := GOp (o : eop) | GGrow (k : nat).
 
@@ -1039,6 +1154,9 @@ Proof.
   rewrite app_length. repeat split; try assumption. lia.
 Qed.
 
+Lemma grow_invM s k : EInvM s -> EInvM (grow s k).
+Proof. intros [H Hm]. split; [apply grow_inv; exact H|exact Hm]. Qed.
+
 (* growth never changes the active prefix: same agents, same rows, hence the same abstract map *)
 Lemma grow_rows s k : EInv s -> e_rows (grow s k) = e_rows s.
 Proof. intros [_ [H2 _]]. unfold e_rows, grow. cbn [e_n e_store]. apply firstn_app_le. exact H2. Qed.
@@ -1046,30 +1164,30 @@ Proof. intros [_ [H2 _]]. unfold e_rows, grow. cbn [e_n e_store]. apply firstn_a
 Lemma grow_abs s k : EInv s -> e_abs (grow s k) = e_abs s.
 Proof. intros H. unfold e_abs. rewrite (grow_rows s k H). reflexivity. Qed.
 
-Lemma g_run_refines c l : forall s, EInv s -> g_run c s l = espec_run c (e_abs s) (ops_of l).
+Lemma g_run_refines c l : forall s, EInvM s -> g_run c s l = espec_run c (e_abs s) (ops_of l).
 Proof.
   induction l as [|[o|k] t IH]; intros s Hinv; [reflexivity| |].
   - cbn [g_run ops_of espec_run]. destruct (estep_sim c s o Hinv) as [Hinv' Hsim].
     rewrite Hsim. destruct (estep c s o) as [s' r]. cbn [fst snd] in *.
     rewrite IH by exact Hinv'. f_equal.
     unfold e_obs, spec_obs. rewrite (view_abs s' Hinv'). reflexivity.
-  - cbn [g_run ops_of]. rewrite IH by (apply grow_inv; exact Hinv). rewrite (grow_abs s k Hinv). reflexivity.
+  - cbn [g_run ops_of]. rewrite IH by (apply grow_invM; exact Hinv). rewrite (grow_abs s k (proj1 Hinv)). reflexivity.
 Qed.
 
-Lemma g_final_refines c l : forall s, EInv s ->
-  EInv (g_final c s l) /\ e_abs (g_final c s l) = espec_final c (e_abs s) (ops_of l).
+Lemma g_final_refines c l : forall s, EInvM s ->
+  EInvM (g_final c s l) /\ e_abs (g_final c s l) = espec_final c (e_abs s) (ops_of l).
 Proof.
   induction l as [|[o|k] t IH]; intros s Hinv; [split; [exact Hinv|reflexivity]| |].
   - cbn [g_final ops_of espec_final]. destruct (estep_sim c s o Hinv) as [Hinv' Hsim].
     rewrite Hsim. cbn [fst]. apply IH. exact Hinv'.
-  - cbn [g_final ops_of]. rewrite <- (grow_abs s k Hinv). apply IH. apply grow_inv. exact Hinv.
+  - cbn [g_final ops_of]. rewrite <- (grow_abs s k (proj1 Hinv)). apply IH. apply grow_invM. exact Hinv.
 Qed.
 
 (* every observation of a history is unchanged by growth steps of any size inserted anywhere in it *)
 Theorem exp_growth_invisible c l :
   g_run c (e_init c) l = e_run c (e_init c) (ops_of l).
 Proof.
-  rewrite (g_run_refines c l (e_init c) (init_inv c)), <- exp_refines. reflexivity.
+  rewrite (g_run_refines c l (e_init c) (init_invM c)), <- exp_refines. reflexivity.
 Qed.
 
 (* ... and so are space.agents and every agent's position in the final state *)
@@ -1077,9 +1195,200 @@ Theorem exp_growth_view_invariant c l a :
   e_active (g_final c (e_init c) l) = e_active (e_final c (e_init c) (ops_of l)) /\
   e_getpos (g_final c (e_init c) l) a = e_getpos (e_final c (e_init c) (ops_of l)) a.
 Proof.
-  destruct (g_final_refines c l (e_init c) (init_inv c)) as [Hg Habs].
-  destruct (e_final_refines c (ops_of l) (e_init c) (init_inv c)) as [He Habs'].
+  destruct (g_final_refines c l (e_init c) (init_invM c)) as [[Hg _] Habs].
+  destruct (e_final_refines c (ops_of l) (e_init c) (init_invM c)) as [[He _] Habs'].
   split.
   - rewrite <- (e_abs_keys _ Hg), <- (e_abs_keys _ He), Habs, Habs'. reflexivity.
   - rewrite (getpos_abs _ a Hg), (getpos_abs _ a He), Habs, Habs'. reflexivity.
+Qed.
+
+(* ================================================================= round 3 *)
+(* ---------------------------------------------------------------- space.agents ORDER *)
+(* the order the code fixes: active_agents is appended to by _add_agent, deleted from in place by _remove_agent,
+   never touched by a move or a query; model.agents (model._agents) evolves the same way *)
+Definition e_order_step (c : ecfg) (l : list Z) (o : eop) : list Z :=
+  match o with
+  | EAdd a p =>
+      if negb (dim_ok (ec_bounds c) p) || mem a l || (negb (ec_torus c) && negb (in_closed (ec_bounds c) p))
+      then l else l ++ [a]
+  | ERemove a => filter (fun b => negb (b =? a)) l
+  | EClear => []
+  | _ => l
+  end.
+
+Lemma filter_neq_notin a (l : list Z) : ~ In a l -> filter (fun b => negb (b =? a)) l = l.
+Proof.
+  induction l as [|x t IH]; intros H; [reflexivity|]. cbn [filter].
+  destruct (x =? a) eqn:E; [apply Z.eqb_eq in E; subst; exfalso; apply H; left; reflexivity|].
+  cbn [negb]. rewrite IH; [reflexivity|]. intros Hin. apply H. right. exact Hin.
+Qed.
+
+Lemma espec_keys_step c (m : amap) o :
+  akeys (fst (espec_step c m o)) = e_order_step c (akeys m) o.
+Proof.
+  destruct o as [a p|a p|a|q|q r|q k out|q|b r|b k out|b b'|q l|q l|]; cbn [espec_step e_order_step fst]; try reflexivity.
+  - destruct (_ || _ || _) eqn:Eg; [reflexivity|].
+    apply orb_false_iff in Eg. destruct Eg as [_ Eoob].
+    assert (exists p', norm_pos c p = Ok p') as [p' ->].
+    { unfold norm_pos. destruct (in_closed (ec_bounds c) p); [eauto|].
+      destruct (ec_torus c); [eauto|]. simpl in Eoob. discriminate. }
+    cbn [fst]. unfold akeys. rewrite map_app. reflexivity.
+  - destruct (_ || _) eqn:Eg; [reflexivity|].
+    apply orb_false_iff in Eg. destruct Eg as [_ Em]. apply negb_false_iff in Em. apply mem_In in Em.
+    destruct (norm_pos c p); [|reflexivity]. cbn [fst]. apply akeys_aset_old.
+    intros Hn. apply aget_None_keys in Hn. contradiction.
+  - destruct (mem a (akeys m)) eqn:Em; cbn [negb fst].
+    + rewrite akeys_adel. symmetry. apply filter_eqb_sym.
+    + symmetry. apply filter_neq_notin. rewrite <- mem_In. congruence.
+Qed.
+
+Lemma espec_final_keys c ops : forall m,
+  akeys (espec_final c m ops) = fold_left (e_order_step c) ops (akeys m).
+Proof.
+  induction ops as [|o t IH]; intros m; [reflexivity|].
+  cbn [espec_final fold_left]. rewrite IH, espec_keys_step. reflexivity.
+Qed.
+
+(* C10_exp_agents_order *)
+Theorem exp_agents_order c ops :
+  e_active (e_final c (e_init c) ops) = fold_left (e_order_step c) ops [] /\
+  e_model (e_final c (e_init c) ops) = fold_left (e_order_step c) ops [].
+Proof.
+  destruct (e_final_refines c ops (e_init c) (init_invM c)) as [[Hinv Hmod] Habs].
+  rewrite Hmod. rewrite <- (e_abs_keys _ Hinv), Habs, espec_final_keys. auto.
+Qed.
+
+(* ---------------------------------------------------------------- agent.remove() / model.remove_all_agents() *)
+(* C10_remove_from_model_leaves_space: in every reachable state the agents registered with the model are exactly the
+   agents of the space (same order); agent.remove() takes the agent out of both, it reports no position any more, and the
+   map of everybody else is untouched; remove_all_agents() empties both *)
+Theorem remove_from_model_leaves_space c ops a :
+  let s := e_final c (e_init c) ops in
+  e_model s = e_active s /\
+  (In a (e_model s) ->
+   let s' := fst (estep c s (ERemove a)) in
+   snd (estep c s (ERemove a)) = Some (Ok []) /\
+   ~ In a (e_model s') /\ ~ In a (e_active s') /\ e_getpos s' a = None /\
+   e_abs s' = adel a (e_abs s) /\
+   (forall b, b <> a -> e_getpos s' b = e_getpos s b)) /\
+  (let s' := fst (estep c s EClear) in
+   snd (estep c s EClear) = Some (Ok []) /\ e_model s' = [] /\ e_active s' = []).
+Proof.
+  cbn zeta. pose proof (exp_reachable_invM c ops) as HinvM. pose proof HinvM as [Hinv Hmod].
+  split; [exact Hmod|]. split.
+  - intros Hin. rewrite Hmod in Hin.
+    destruct (estep_sim c _ (ERemove a) HinvM) as [[Hinv' Hmod'] Hsim].
+    cbn [espec_step] in Hsim. rewrite (mem_active_abs _ a Hinv) in Hsim.
+    assert (mem a (e_active (e_final c (e_init c) ops)) = true) as Hm by (apply mem_In; exact Hin).
+    rewrite Hm in Hsim. cbn [negb] in Hsim.
+    remember (estep c (e_final c (e_init c) ops) (ERemove a)) as st eqn:Est. clear Est.
+    pose proof (f_equal fst Hsim) as Habs. pose proof (f_equal snd Hsim) as Hres. cbn [fst snd] in Habs, Hres.
+    assert (Hnot : ~ In a (e_active (fst st))).
+    { rewrite <- (e_abs_keys _ Hinv'), <- Habs. apply aget_None_keys. apply aget_adel_same. }
+    split; [symmetry; exact Hres|]. split; [rewrite Hmod'; exact Hnot|]. split; [exact Hnot|].
+    split; [rewrite (getpos_abs _ a Hinv'), <- Habs; apply aget_adel_same|].
+    split; [symmetry; exact Habs|].
+    intros b Hb. rewrite (getpos_abs _ b Hinv'), (getpos_abs _ b Hinv), <- Habs. apply aget_adel_other. exact Hb.
+  - destruct (estep_sim c _ EClear HinvM) as [[Hinv' Hmod'] Hsim].
+    cbn [espec_step] in Hsim.
+    remember (estep c (e_final c (e_init c) ops) EClear) as st eqn:Est. clear Est.
+    pose proof (f_equal fst Hsim) as Habs. pose proof (f_equal snd Hsim) as Hres. cbn [fst snd] in Habs, Hres.
+    split; [symmetry; exact Hres|].
+    assert (e_active (fst st) = []) as Hnil by (rewrite <- (e_abs_keys _ Hinv'), <- Habs; reflexivity).
+    split; [rewrite Hmod'; exact Hnil|exact Hnil].
+Qed.
+
+(* ---------------------------------------------------------------- the agents= forms *)
+(* calculate_distances / calculate_difference_vector with agents=[...]: the rows of exactly the listed agents, in
+   the order listed (repeats and the empty list included); defined iff every listed agent is in the space *)
+Lemma positions_of_spec g (l : list Z) rows :
+  positions_of g l = Some rows <-> Forall2 (fun a p => g a = Some p) l rows.
+Proof.
+  revert rows. induction l as [|a t IH]; intros rows; cbn [positions_of].
+  - split; [intros H; inversion H; constructor|intros H; inversion H; reflexivity].
+  - destruct (g a) as [p|] eqn:Eg.
+    + destruct (positions_of g t) as [r|] eqn:Et.
+      * split.
+        -- intros H. inversion H. subst. constructor; [exact Eg|]. apply IH. reflexivity.
+        -- intros H. inversion H as [|? ? ? ? H1 H2]. subst. apply IH in H2. inversion H2. subst.
+           rewrite Eg in H1. inversion H1. reflexivity.
+      * split; [discriminate|]. intros H. inversion H as [|? ? ? ? H1 H2]. subst. apply IH in H2. discriminate.
+    + split; [discriminate|]. intros H. inversion H as [|? ? ? ? H1 H2]. subst. rewrite Eg in H1. discriminate.
+Qed.
+
+Theorem exp_subset_forms_exact c ops q l :
+  let s := e_final c (e_init c) ops in
+  dim_ok (ec_bounds c) q = true ->
+  (snd (estep c s (EDistancesOf q l)) <> None <-> forall a, In a l -> In a (e_active s)) /\
+  (forall rows, Forall2 (fun a p => fold_left (e_track c a) ops None = Some p) l rows ->
+     snd (estep c s (EDistancesOf q l))
+     = Some (Ok (concat (map (fun ar : Z * point => [fst ar; dist2 (ec_torus c) (ec_bounds c) (snd ar) q]) (combine l rows)))) /\
+     snd (estep c s (EDiffsOf q l))
+     = Some (Ok (concat (map (fun ar : Z * point => fst ar :: diffv (ec_torus c) (ec_bounds c) q (snd ar)) (combine l rows))))).
+Proof.
+  cbn zeta. intros Hd. pose proof (exp_reachable_invM c ops) as HinvM. pose proof HinvM as [Hinv _].
+  destruct (estep_sim c _ (EDistancesOf q l) HinvM) as [_ H1].
+  destruct (estep_sim c _ (EDiffsOf q l) HinvM) as [_ H2].
+  cbn [espec_step equery] in H1, H2. rewrite Hd in H1, H2. cbn [negb] in H1, H2.
+  pose proof (f_equal snd H1) as R1. pose proof (f_equal snd H2) as R2. cbn [snd] in R1, R2. clear H1 H2.
+  set (m := e_abs (e_final c (e_init c) ops)) in *.
+  assert (Hg : forall a, aget a m = fold_left (e_track c a) ops None).
+  { intros a. unfold m. rewrite <- (getpos_abs _ a Hinv). apply exp_position_last_assigned. }
+  split.
+  - rewrite <- R1. split.
+    + intros Hne a Ha. destruct (positions_of (fun a0 => aget a0 m) l) as [rows|] eqn:Ep; [|contradiction].
+      apply positions_of_spec in Ep. rewrite <- (e_abs_keys _ Hinv). fold m.
+      clear - Ep Ha. induction Ep as [|x p t r Hx Hr IH]; [destruct Ha|].
+      destruct Ha as [->|Ha]; [|apply IH; exact Ha].
+      destruct (in_dec Z.eq_dec a (akeys m)) as [H|H]; [exact H|]. apply aget_None_keys in H. congruence.
+    + intros Hall. destruct (positions_of (fun a0 => aget a0 m) l) as [rows|] eqn:Ep; [discriminate|].
+      exfalso. clear - Ep Hall Hinv. revert Ep. fold m.
+      induction l as [|x t IH]; cbn [positions_of]; [discriminate|].
+      destruct (aget x m) eqn:Ex.
+      * destruct (positions_of (fun a0 => aget a0 m) t); [discriminate|]. intros _. apply IH; [|reflexivity].
+        intros a Ha. apply Hall. right. exact Ha.
+      * intros _. apply aget_None_keys in Ex. apply Ex. unfold m. rewrite (e_abs_keys _ Hinv). apply Hall. left. reflexivity.
+  - intros rows Hrows.
+    assert (positions_of (fun a => aget a m) l = Some rows) as Ep.
+    { apply positions_of_spec. clear - Hrows Hg. induction Hrows as [|a p t r Hp Hr IH]; constructor;
+        [rewrite Hg; exact Hp|exact IH]. }
+    rewrite <- R1, <- R2, Ep. split; reflexivity.
+Qed.
+
+(* ---------------------------------------------------------------- get_nearest_neighbors with coincident agents *)
+Lemma filter_neq_length a (l : list Z) :
+  NoDup l -> In a l -> S (length (filter (fun b => negb (b =? a)) l)) = length l.
+Proof.
+  induction l as [|x t IH]; intros Hnd Hin; [destruct Hin|].
+  inversion Hnd as [|? ? Hx Hnd']. subst. cbn [filter length].
+  destruct (x =? a) eqn:E.
+  - apply Z.eqb_eq in E. subst x. cbn [negb]. rewrite filter_neq_notin by exact Hx. reflexivity.
+  - cbn [negb length]. f_equal. apply IH; [exact Hnd'|].
+    destruct Hin as [Hin|Hin]; [apply Z.eqb_neq in E; congruence|exact Hin].
+Qed.
+
+(* the documented boundary of ContinuousSpaceAgent.get_nearest_neighbors(k) = get_k_nearest_agents(self.position, k + 1)
+   minus self.  ds: the distances from self's position (self at distance 0), raw: ANY legal choice of k+1 nearest.
+   (i)  self in raw  -> exactly k distinct other agents, none farther than an other agent left out;
+   (ii) self not in raw -> the answer is raw itself: k+1 agents, every one of them at distance <= 0, i.e. exactly on self
+        (so this needs at least k+1 other agents coincident with self; with fewer, (i) is the only case) *)
+Theorem nearest_neighbors_boundary ds k a raw :
+  In (a, 0) ds -> knn_legal ds (S k) raw = true ->
+  let out := filter (fun b => negb (b =? a)) raw in
+  (In a raw ->
+     length out = k /\ NoDup out /\ ~ In a out /\
+     (forall b x d, In b out -> In (x, d) ds -> x <> a -> ~ In x out -> dist_of ds b <= d)) /\
+  (~ In a raw ->
+     out = raw /\ length out = S k /\ NoDup out /\ (forall b, In b out -> b <> a /\ dist_of ds b <= 0)).
+Proof.
+  intros Ha Hl. cbn zeta. destruct (knn_legal_sound _ _ _ Hl) as [H1 [H2 [H3 H4]]]. split.
+  - intros Hin. pose proof (filter_neq_length a raw H2 Hin) as Hlen.
+    split; [lia|]. split; [apply NoDup_filter; exact H2|]. split.
+    + intros Hf. apply filter_In in Hf. destruct Hf as [_ Hf]. rewrite Z.eqb_refl in Hf. discriminate.
+    + intros b x d Hb Hx Hne Hnx. apply filter_In in Hb. destruct Hb as [Hb _].
+      apply (H4 b x d Hb Hx). intros Hxr. apply Hnx. apply filter_In. split; [exact Hxr|].
+      destruct (x =? a) eqn:E; [apply Z.eqb_eq in E; contradiction|reflexivity].
+  - intros Hnin. rewrite (filter_neq_notin a raw Hnin).
+    split; [reflexivity|]. split; [exact H1|]. split; [exact H2|].
+    intros b Hb. split; [intros ->; contradiction|]. apply (H4 b a 0 Hb Ha Hnin).
 Qed.
